@@ -620,6 +620,51 @@ fn gen_status(ctx: &mut Ctx) -> Vec<u8> {
     }
 }
 
+/// A digest that is wrong in a structured way: the right one XORed with a mask that repeats with period 1, 2, 4 or 8 bytes
+/// (the differences cancel in any comparison that folds halves, words or bytes together), with the halves swapped,
+/// reversed, rotated, or with one byte / one bit changed. Never equal to `d`.
+fn near_miss_digest(ctx: &mut Ctx, d: &[u8]) -> Vec<u8> {
+    let mut out = d.to_vec();
+    match ctx.rng.below(8) {
+        k @ 0..=3 => {
+            let p = 1usize << k;
+            let mut mask = ctx.rng.bytes(p);
+            if mask.iter().all(|b| *b == 0) {
+                mask[0] = 0x5a;
+            }
+            ctx.count(&format!("near_miss_digest_period_{}", p));
+            for (i, b) in out.iter_mut().enumerate() {
+                *b ^= mask[i % p];
+            }
+        }
+        4 => {
+            // the same change in exactly two bytes, eight apart
+            let i = ctx.rng.below(8) as usize;
+            let m = 1 + ctx.rng.below(255) as u8;
+            out[i] ^= m;
+            out[i + 8] ^= m;
+            ctx.count("near_miss_digest_two_bytes_8_apart");
+        }
+        5 => {
+            out.rotate_left(8);
+            ctx.count("near_miss_digest_halves_swapped");
+        }
+        6 => {
+            out.reverse();
+            ctx.count("near_miss_digest_reversed");
+        }
+        _ => {
+            let i = ctx.rng.below(16) as usize;
+            out[i] ^= 1 << ctx.rng.below(8);
+            ctx.count("near_miss_digest_one_bit");
+        }
+    }
+    if out == d {
+        out[15] ^= 1;
+    }
+    out
+}
+
 fn damage(ctx: &mut Ctx, mut m: Vec<u8>) -> Vec<u8> {
     match ctx.rng.below(7) {
         0 => {
@@ -770,6 +815,16 @@ fn random_walk(ctx: &mut Ctx) {
                 let m = damage(ctx, ack_msg(c, &cfg.cookie));
                 run.exec(&Op::A(m));
             }
+            Sym::AWrong | Sym::AValid if ctx.rng.chance(1, 3) => {
+                // the right ack with its digest wrong in a structured way
+                let c = run.learn_our().unwrap_or(1);
+                let m = ack_msg(c, &cfg.cookie);
+                let k = m.len() - 16;
+                let forged = near_miss_digest(ctx, &m[k..]);
+                let mut m2 = m[..k].to_vec();
+                m2.extend_from_slice(&forged);
+                run.exec(&Op::A(m2));
+            }
             Sym::AWrong if ctx.rng.chance(1, 2) => {
                 // the right challenge with another cookie
                 let c = run.learn_our().unwrap_or(1);
@@ -891,6 +946,25 @@ fn codecs(ctx: &mut Ctx) {
         ctx.prop("codec", &format!("c04p_ack {} {} {}", chal, ch, hex(&b)), "ok");
         if ChallengeAck::decode(&b[2..]).ok().as_ref() != Some(&ak) {
             ctx.fail("codec", &format!("ChallengeAck decode(encode) differs: {}", hex(&b)));
+        }
+        // structured near misses of the right digest must all be refused (by the ack and by the reply check)
+        for _ in 0..6 {
+            let forged = near_miss_digest(ctx, &ak.digest);
+            let mut raw = vec![b'a'];
+            raw.extend_from_slice(&forged);
+            if let Ok(fa) = ChallengeAck::decode(&raw) {
+                ctx.tie("codec", &format!("c04verify {} {} {}", hex(&forged), chal, ch), if fa.verify(chal, &cookie) { "true" } else { "false" });
+                if fa.verify(chal, &cookie) {
+                    ctx.fail("c04-forged-digest-accepted", &format!("ChallengeAck digest {} accepted for challenge {} cookie {} (right digest {})", hex(&forged), chal, ch, hex(&ak.digest)));
+                }
+            }
+            let forged_r = near_miss_digest(ctx, &rp.digest);
+            let mut raw = vec![b'r'];
+            raw.extend_from_slice(&chal.to_be_bytes());
+            raw.extend_from_slice(&forged_r);
+            if let Ok(fr) = ChallengeReply::decode(&raw) {
+                ctx.tie("codec", &format!("c04verify {} {} {}", hex(&forged_r), their, ch), if fr.verify(their, &cookie) { "true" } else { "false" });
+            }
         }
         let other = format!("{}y", cookie);
         ctx.tie("codec", &format!("c04verify {} {} {}", hex(&ak.digest), chal, hexarg(other.as_bytes())), if ak.verify(chal, &other) { "true" } else { "false" });
